@@ -89,8 +89,10 @@ def c10_r1(ctx):
     wi = [c for c in norm.calls_in(wb.node) if norm.call_name(c) == "write_int" and c.args and isinstance(c.args[0], ast.Name)]
     if len(wi) == 1:
         WA.eq(wi[0].args[0], "blocklength")
-    w_neg = any(isinstance(st, ast.If) and norm.canon(st.test) == "last" and len(st.body) == 1 and not st.orelse and
-                (WA.eq(st.body[0], "blocklength *= -1") or WA.eq(st.body[0], "blocklength = -blocklength")) for st in wsts)
+    w_neg = any(isinstance(st, ast.If) and norm.canon(st.test) == "last" and not st.orelse and
+                (WA.has(st.body, "blocklength *= -1") or WA.has(st.body, "blocklength = -blocklength")) for st in wsts) and \
+        sum(1 for st in wsts if isinstance(st, (ast.Assign, ast.AugAssign)) and
+            WA.eq(st.targets[0] if isinstance(st, ast.Assign) else st.target, "blocklength")) == 2
     r_neg = False
     gsts = pm.stmts_of(gt.node)
     G.find(gsts, "length = postfile.read_int()")
